@@ -576,3 +576,8 @@ for k in ("C16", "C01", "C05"):
     if not any(h["name"] == "VH_C06_Open" for h in reg[k]["harnesses"]):
         reg[k]["harnesses"].append({"name": "VH_C06_Open", "pkg": SQ, "labels": ["C06:"], "reach": ["done"]})
 reg["C16"]["explanation"] += "; all-or-nothing batches rest on the SQL engine's rollback journal: the data source name the real constructor opens carries no journal/synchronous weakening the operator did not configure"
+# writer closure, completed: SearchPromises completes overdue promises lazily - its transactions re-prove every Inv/G clause too
+for h in reg["C14"]["harnesses"]:
+    if h["name"] == "VH_P_Search":
+        h["labels"] = sorted(set(h["labels"] + ["O2:"]))
+reg["C14"]["explanation"] += "; the lazy time-outs a search performs are transactions like any other: every clause of the store invariant and of the transition guarantee (G6 included) is re-proved for them"
